@@ -292,6 +292,21 @@ def move (s : St) (frm to : Nat) : Option (St × Nat) :=
       some ({ s with tops := dropEmpty tops2 }, r.2.2)
   | _, _, _, _ => none
 
+/-- `move(from, to)` inside ONE top-level structure: the same merge, for two sibling lists none of which lies inside
+    the other's part that takes part in the move (`to` not below an element of the source list from `from` on, `from`
+    not below an element of the destination list) -/
+def moveSame (s : St) (frm to : Nat) : Option (St × Nat) :=
+  match s.topOf? frm, s.topOf? to, s.sibsOf? frm, s.sibsOf? to with
+  | some a, some b, some (l, i), some (dl, d) =>
+    if a ≠ b then none
+    else if (ids dl).contains frm ∨ (ids (l.drop i)).contains to then none
+    else
+      let r := merge (l.drop i) dl d
+      let tops1 := s.tops.map (updSibs frm fun l' => l'.take i ++ r.1)
+      let tops2 := tops1.map (updSibs to fun _ => r.2.1)
+      some ({ s with tops := dropEmpty tops2 }, r.2.2)
+  | _, _, _, _ => none
+
 /-- `clone x`: 0 = the node alone, 1 = with everything below, 2 = the list from `x` on with everything below -/
 def clone (s : St) (x : Nat) (mode : Nat) : Option St :=
   match s.sibsOf? x with
